@@ -457,3 +457,164 @@ Proof.
   pose proof (one_msg_out retries a m) as F. destruct (one_msg retries a m) as [s|a1]; [exact I|].
   specialize (IH a1). destruct (all_msgs retries a1 r); [exact I|]. apply grows_len in F. destruct F as [F1 F2], IH as [I1 I2]. cbn [List.length]. split; [lia|auto].
 Qed.
+
+(* ---------- the timing phase in its two sections ---------- *)
+Lemma aupsert_twice {A} (l : list (string * A)) k v1 v2 : aupsert (aupsert l k v1) k v2 = aupsert l k v2.
+Proof.
+  induction l as [|[k0 v0] r IH]; cbn [aupsert]; [rewrite String.eqb_refl; reflexivity|].
+  destruct (String.eqb_spec k k0) as [->|N]; cbn [aupsert]; [rewrite String.eqb_refl; reflexivity|].
+  destruct (String.eqb_spec k k0); [contradiction|]. rewrite IH. reflexivity.
+Qed.
+
+Lemma set_clock_twice s ch c1 c2 : set_clock (set_clock s ch c1) ch c2 = set_clock s ch c2.
+Proof. unfold set_clock. cbn [dcolls dparts handlers clocks heap cbars pbars pbar_handlers keymap out events alive]. rewrite aupsert_twice. reflexivity. Qed.
+
+Lemma emit_split s ch label b e msgs need :
+  emit s ch label b e msgs need = emit23 (fst (emit1 s ch b e msgs)) ch label (snd (emit1 s ch b e msgs)) need.
+Proof.
+  unfold emit, emit1, emit23. destruct (apply_reset msgs b e (cts (clock_of s ch))) as [[[m1 b1] e1]|]; cbn [fst snd].
+  - rewrite clock_of_set. destruct label as [[lc ln] lsp].
+    destruct (negb _); [rewrite set_clock_twice; reflexivity|].
+    match goal with |- context [if N.ltb ?a ?b then ?x else ?y] => destruct (if N.ltb a b then x else y) as [[[[m2 b2] e2] gen] c2] end.
+    rewrite set_clock_twice. reflexivity.
+  - reflexivity.
+Qed.
+
+Lemma sorted_hd_le (l : list N) : StronglySorted N.le l -> forall d, In d l -> hd 0 l <= d.
+Proof. intros S d Hin. destruct l as [|x r]; [destruct Hin|]. cbn. destruct Hin as [<-|Hin]; [lia|]. inversion S as [|? ? _ F]; subst. rewrite Forall_forall in F. apply F, Hin. Qed.
+
+Lemma apply_reset_min msgs b e newts m' b' e' : apply_reset msgs b e newts = Some (m', b', e') -> Forall (fun d => b' <= e_ts d) m'.
+Proof.
+  intros R. destruct (apply_reset_some _ _ _ _ _ _ _ R) as [_ [_ [_ [_ [Hb [_ [_ [Hne [M _]]]]]]]]].
+  destruct (deltas_spec (map e_ts msgs) 0 0 0 true ltac:(discriminate)) as [_ [DS _]].
+  set (ds := deltas 0 0 0 true (map e_ts msgs)) in *.
+  rewrite Forall_forall. intros d Hin.
+  assert (Hd : In (e_ts d) (map (fun x => newts + x) ds)) by (rewrite <- M; apply in_map; exact Hin).
+  apply in_map_iff in Hd. destruct Hd as [x [Ex Hx]].
+  assert (Hh : b' = newts + hd 0 ds).
+  { rewrite Hb. destruct m' as [|y r]; [congruence|]. cbn [hd]. destruct ds as [|z zs]; [discriminate|]. cbn in M. injection M as M1 _. cbn [hd]. exact M1. }
+  pose proof (sorted_hd_le ds DS x Hx). lia.
+Qed.
+
+Definition pend_ok (c : clock) (pend : list emsg * N * N) : Prop :=
+  fst (fst pend) = []
+  \/ (Forall (fun d => snd (fst pend) <= e_ts d /\ e_ts d <= snd pend /\ e_posts d = e_ts d) (fst (fst pend))
+      /\ snd (fst pend) = e_ts (hd (tick "" 0 0) (fst (fst pend))) /\ snd pend = e_ts (last (fst (fst pend)) (tick "" 0 0)) /\ snd pend <= cts c).
+
+Lemma emit1_spec s ch b e msgs :
+  let c0 := clock_of s ch in
+  lts c0 <= cts c0 -> b <= cts c0 -> cts c0 + N.of_nat (List.length msgs) + 1 < maxu ->
+  let s1 := fst (emit1 s ch b e msgs) in let pend := snd (emit1 s ch b e msgs) in
+  handlers s1 = handlers s /\ events s1 = events s /\ dcolls s1 = dcolls s /\ dparts s1 = dparts s /\ cbars s1 = cbars s /\ pbars s1 = pbars s
+  /\ heap s1 = heap s /\ keymap s1 = keymap s /\ pbar_handlers s1 = pbar_handlers s /\ out s1 = out s
+  /\ (forall ch', ch <> ch' -> clock_of s1 ch' = clock_of s ch')
+  /\ lts (clock_of s1 ch) = lts c0 /\ cts c0 <= cts (clock_of s1 ch)
+  /\ cts (clock_of s1 ch) <= cts c0 + N.of_nat (List.length msgs)
+  /\ pend_ok (clock_of s1 ch) pend /\ Forall2 same_but_time msgs (fst (fst pend)).
+Proof.
+  intros c0 H1 H2 H3. unfold emit1. fold c0.
+  destruct (apply_reset msgs b e (cts c0)) as [[[m1 b1] e1]|] eqn:R1; cbn [fst snd].
+  - destruct (apply_reset_some _ _ _ _ _ _ _ R1) as [Hne [_ [F2 [FA [Hb [He [Hlt [Hm1 [_ Hbound]]]]]]]]].
+    pose proof (apply_reset_min _ _ _ _ _ _ _ R1) as Fmin.
+    assert (Ee : e1 <> maxu) by (unfold maxu in *; lia).
+    destruct (collect_spec c0 e1 Ee) as [C1 [C2 C3]].
+    cbn [handlers events dcolls dparts cbars pbars heap keymap pbar_handlers out set_clock].
+    repeat (split; [reflexivity|]).
+    split; [intros ch' N; apply clock_of_set_other; exact N|]. rewrite clock_of_set.
+    split; [exact C2|]. split; [rewrite C1; lia|]. split; [rewrite C1; lia|]. split; [|exact F2].
+    right. cbn [fst snd]. split; [|split; [exact Hb|split; [exact He|rewrite C1; lia]]].
+    rewrite Forall_forall in *. intros d Hin. destruct (FA d Hin) as [A [B C]]. specialize (Fmin d Hin). repeat split; assumption.
+  - destruct (apply_reset_none _ _ _ _ R1) as [->|Hb]; [|lia].
+    do 10 (split; [reflexivity|]). split; [reflexivity|]. split; [reflexivity|]. split; [fold c0; lia|]. split; [fold c0; cbn; lia|]. split; [left; reflexivity|constructor].
+Qed.
+
+Record pack_spec2 (ch : string) (label : Z * string * string) (msgs : list emsg) (lts0 : N) (pk : epack) : Prop := {
+  p2_chan : ep_chan pk = ch /\ ep_poschan pk = ch;
+  p2_label : (ep_coll pk, ep_cname pk, ep_spch pk) = label;
+  p2_shape : exists opening data tk,
+      ep_msgs pk = (opening ++ data ++ [tk])%list
+      /\ Forall (fun o => e_kind o = KTick /\ e_poschan o = ch) opening
+      /\ Forall2 same_but_time msgs data
+      /\ e_kind tk = KTick /\ e_poschan tk = ch
+      /\ lts0 <= e_ts tk
+      /\ Forall (fun d => lts0 < e_ts d /\ e_ts d <= e_ts tk /\ e_posts d = e_ts d) data
+      /\ (data <> [] -> ep_begin pk = e_ts (hd tk data) /\ ep_end pk = e_ts (last data tk) /\ ep_end pk <= e_ts tk /\ ep_endposts pk = ep_end pk);
+}.
+
+Lemma emit23_spec s ch label pend need :
+  let c1 := clock_of s ch in
+  lts c1 <= cts c1 -> pend_ok c1 pend -> cts c1 + N.of_nat (List.length (fst (fst pend))) + 1 < maxu ->
+  let s' := emit23 s ch label pend need in
+  handlers s' = handlers s /\ events s' = events s /\ dcolls s' = dcolls s /\ dparts s' = dparts s /\ cbars s' = cbars s /\ pbars s' = pbars s
+  /\ heap s' = heap s /\ keymap s' = keymap s /\ pbar_handlers s' = pbar_handlers s
+  /\ (forall ch', ch <> ch' -> clock_of s' ch' = clock_of s ch')
+  /\ lts (clock_of s' ch) <= cts (clock_of s' ch) /\ lts c1 <= lts (clock_of s' ch) /\ cts c1 <= cts (clock_of s' ch)
+  /\ ((out s' = out s /\ lts (clock_of s' ch) = lts c1)
+      \/ exists pk, out s' = (out s ++ [pk])%list /\ pack_spec2 ch label (fst (fst pend)) (lts c1) pk /\ lts (clock_of s' ch) = last_ts pk).
+Proof.
+  intros c1 H1 P H3 s'. unfold s', emit23. destruct pend as [[m1 b1] e1]. unfold pend_ok in P. cbn [fst snd] in *. fold c1. destruct label as [[lc ln] lsp].
+  (* the shape of the result, once the shifted messages, the times and the final clock are known *)
+  assert (Build : forall m2 b2 e2 gen c2,
+            lts c2 = lts c1 -> cts c1 <= (if N.ltb (cts c2) gen then gen else cts c2) -> lts c1 <= gen ->
+            Forall2 same_but_time m1 m2 ->
+            Forall (fun d => lts c1 < e_ts d /\ e_ts d <= gen /\ e_posts d = e_ts d) m2 ->
+            (m2 <> [] -> b2 = e_ts (hd (tick "" 0 0) m2) /\ e2 = e_ts (last m2 (tick "" 0 0)) /\ e2 <= gen) ->
+            gen <= (if N.ltb (cts c2) gen then gen else cts c2) ->
+            let s2 := set_clock s ch {| cts := if N.ltb (cts c2) gen then gen else cts c2; lts := gen; gate := need || match m1 with [] => false | _ => true end |} in
+            let pk := {| ep_chan := ch; ep_coll := lc; ep_cname := ln; ep_spch := lsp; ep_begin := b2; ep_end := e2; ep_poschan := ch; ep_endposts := e2;
+                         ep_msgs := if N.eqb (lts c2) 0 then tick ch b2 b2 :: (m2 ++ [tick ch gen e2])%list else (m2 ++ [tick ch gen e2])%list |} in
+            let s3 := {| dcolls := dcolls s2; dparts := dparts s2; handlers := handlers s2; clocks := clocks s2; heap := heap s2; cbars := cbars s2;
+                         pbars := pbars s2; pbar_handlers := pbar_handlers s2; keymap := keymap s2; out := (out s2 ++ [pk])%list; events := events s2; alive := alive s2 |} in
+            handlers s3 = handlers s /\ events s3 = events s /\ dcolls s3 = dcolls s /\ dparts s3 = dparts s /\ cbars s3 = cbars s /\ pbars s3 = pbars s
+            /\ heap s3 = heap s /\ keymap s3 = keymap s /\ pbar_handlers s3 = pbar_handlers s
+            /\ (forall ch', ch <> ch' -> clock_of s3 ch' = clock_of s ch')
+            /\ lts (clock_of s3 ch) <= cts (clock_of s3 ch) /\ lts c1 <= lts (clock_of s3 ch) /\ cts c1 <= cts (clock_of s3 ch)
+            /\ ((out s3 = out s /\ lts (clock_of s3 ch) = lts c1)
+                \/ exists pk, out s3 = (out s ++ [pk])%list /\ pack_spec2 ch (lc, ln, lsp) m1 (lts c1) pk /\ lts (clock_of s3 ch) = last_ts pk)).
+  { intros m2 b2 e2 gen c2 El Hc Hg F2 FA Hd Hgc s2 pk s3.
+    cbn [handlers events dcolls dparts cbars pbars heap keymap pbar_handlers out set_clock s3 s2].
+    repeat (split; [reflexivity|]).
+    split. { intros ch' N. unfold clock_of at 1. cbn [clocks]. fold (clock_of s2 ch'). unfold s2. apply clock_of_set_other; exact N. }
+    assert (CK : clock_of s3 ch = {| cts := if N.ltb (cts c2) gen then gen else cts c2; lts := gen; gate := need || match m1 with [] => false | _ => true end |})
+      by (transitivity (clock_of s2 ch); [reflexivity|apply clock_of_set]).
+    rewrite CK. cbn [lts cts]. split; [exact Hgc|]. split; [exact Hg|]. split; [exact Hc|].
+    right. exists pk. split; [reflexivity|]. split.
+    - constructor; cbn [ep_chan ep_poschan ep_coll ep_cname ep_spch ep_msgs ep_begin ep_end ep_endposts pk].
+      + split; reflexivity.
+      + reflexivity.
+      + exists (if N.eqb (lts c2) 0 then [tick ch b2 b2] else []), m2, (tick ch gen e2).
+        split. { destruct (N.eqb (lts c2) 0); reflexivity. }
+        split. { destruct (N.eqb (lts c2) 0); repeat constructor. }
+        split; [exact F2|]. split; [reflexivity|]. split; [reflexivity|]. cbn [tick e_ts]. split; [exact Hg|]. split; [exact FA|].
+        intros Hne. destruct (Hd Hne) as [A [B C]]. split; [rewrite A; apply f_equal, hd_default; exact Hne|].
+        split; [rewrite B; apply f_equal, last_default; exact Hne|]. split; [exact C|reflexivity].
+    - unfold last_ts, pk. cbn [ep_msgs]. destruct (N.eqb (lts c2) 0).
+      + change (tick ch b2 b2 :: (m2 ++ [tick ch gen e2])%list) with (([tick ch b2 b2] ++ m2) ++ [tick ch gen e2])%list. rewrite last_snoc. reflexivity.
+      + rewrite last_snoc. reflexivity. }
+  destruct (negb ((need || match m1 with [] => false | _ => true end) || gate c1 && negb (N.eqb (cts c1) 0))) eqn:Cond.
+  - (* nothing is emitted *)
+    cbn [handlers events dcolls dparts cbars pbars heap keymap pbar_handlers out set_clock].
+    repeat (split; [reflexivity|]).
+    split; [intros ch' N; apply clock_of_set_other; exact N|]. rewrite clock_of_set.
+    split; [exact H1|]. split; [lia|]. split; [lia|]. left. split; reflexivity.
+  - destruct (N.ltb_spec (lts c1) b1) as [Lt|Ge].
+    + (* no tick has overtaken the pack: it keeps its times, the closing tick is the channel's time *)
+      cbn zeta. apply (Build m1 b1 e1 (cts c1) c1); try reflexivity; try (rewrite N.ltb_irrefl; lia); try exact H1.
+      * apply Forall2_refl. apply same_but_time_refl.
+      * destruct P as [->|[FA [Hb [He Hc]]]]; [constructor|]. eapply Forall_impl; [|exact FA]. cbn. intros d [A [B C]]. repeat split; try assumption; lia.
+      * intros Hne. destruct P as [->|[FA [Hb [He Hc]]]]; [congruence|]. repeat split; assumption.
+    + destruct (apply_reset m1 b1 e1 (cts c1)) as [[[m2 b2] e2]|] eqn:R.
+      * (* a tick has overtaken the pack: it is shifted above the channel's time again *)
+        destruct (apply_reset_some _ _ _ _ _ _ _ R) as [Hne [_ [F2 [FA [Hb [He [Hlt [Hm2 [_ Hbound]]]]]]]]].
+        assert (He2 : cts c1 < e2).
+        { rewrite Forall_forall in FA. destruct m2 as [|x xr]; [congruence|]. rewrite He.
+          assert (In (last (x :: xr) (tick "" 0 0)) (x :: xr)).
+          { clear. generalize x. induction xr as [|y r IH]; intros x0; [left; reflexivity|]. right. apply IH. }
+          apply FA in H. lia. }
+        cbn zeta. apply (Build m2 b2 e2 e2 {| cts := e2; lts := lts c1; gate := gate c1 |}); cbn [cts lts]; try reflexivity; try (rewrite N.ltb_irrefl; lia); try lia.
+        -- exact F2.
+        -- eapply Forall_impl; [|exact FA]. cbn. intros d [A [B C]]. repeat split; try assumption; lia.
+      * (* only a tick-only pack is left unshifted when the channel's time is not below its begin *)
+        destruct (apply_reset_none _ _ _ _ R) as [E|Lb]; [|lia]. subst m1.
+        cbn zeta. apply (Build [] b1 e1 (cts c1) c1); try reflexivity; try (rewrite N.ltb_irrefl; lia); try exact H1; try (intros Hx; congruence); constructor.
+Qed.
